@@ -131,7 +131,7 @@ def bus_history(ctx, simpy, uros, msgs, rng, k):
     subs_of = {t: [] for t in topics}
     sid = [0]
     self_nested = {t for t in driven if t not in nested and t not in reuse and rng.random() < 0.3}
-    follow_ups = set()
+    follow_ups = {}
 
     def add_sub(topic, typ):
         sid[0] += 1
@@ -147,8 +147,8 @@ def bus_history(ctx, simpy, uros, msgs, rng, k):
                 do_publish(nested[topic])
             # a callback that publishes on its *own* topic (a node reacting to a message with a follow-up): the follow-up is
             # published after the message being delivered, so every subscriber must see it after that message
-            if topic in self_nested and me == subs_of[topic][0] and mid_ not in follow_ups and rng.random() < 0.5:
-                follow_ups.add(float(counter["n"] + 1))
+            if topic in self_nested and me == subs_of[topic][0] and follow_ups.get(mid_, 0) < 2 and rng.random() < 0.5:
+                follow_ups[float(counter["n"] + 1)] = follow_ups.get(mid_, 0) + 1  # chains: a follow-up may have a follow-up of its own
                 do_publish(topic)
                 ctx.count("same_topic_publish_from_callback")
 
@@ -245,6 +245,8 @@ def bus_history(ctx, simpy, uros, msgs, rng, k):
                 name, val = "logger/dt", float(rng.choice([0.005, 0.01, 0.013, 0.02]))
             else:
                 name, val = str(rng.choice(param_names)), float(np.round(rng.normal(), 6))
+                if rng.random() < 0.2:
+                    val = 0.0  # zero is a value like any other
             handle = None
             if name != "logger/dt" and rng.random() < 0.3:
                 handle = [p_ for n_ in nodes for p_ in n_.params if p_.name == name][0]
